@@ -192,7 +192,7 @@ class Dispatch:
     comp_handled = {'elt_contains': '_request_handler'}
     comp_answered = {'has_if': True}
     clause_props = {'ensures_sequential_mode': ['C10'], 'modifies': ['C13'],
-                    'comp_handled__source': ['C02', 'C01'], 'comp_handled__element': ['C02', 'C01'],
+                    'comp_handled__source': ['C02', 'C01', 'C12'], 'comp_handled__element': ['C02', 'C01'],
                     'comp_answered__keeps': ['C02', 'C01']}
 
     def comp_handled__source(self, request_text, context, request, xs):
